@@ -110,7 +110,7 @@ var validSim = []string{"", "exactflags", "exactlines", "anypointer", "anyvalue"
 var badSim = []string{"bogus", "ANYPOINTER", "alike", "1", "any value"}
 var validAug = []string{"", "0", "1"}
 var badAug = []string{"2", "-1", "x", "1.0"}
-var validMem = []string{"", "1", "500000", "1048576", "2097152", "67108864"}
+var validMem = []string{"", "1", "500000", "1048576", "2097152", "67108864", "3000000"}
 var badMem = []string{"abc", "1e6", "99999999999999999999999", "0x10"}
 
 func genQuery(r *core.Rng) (method, query string, valid bool) {
@@ -196,7 +196,9 @@ func GenPlan(r *core.Rng, seed, run uint64) *Plan {
 			p.Steps = append(p.Steps, Step{Op: "spawn", Kind: []string{"recv", "wg", "cond", "select2"}[r.Intn(4)], Depth: r.Range(60, 95), Creator: r.Intn(3)})
 		}
 		for i, k := 0, r.Range(2, 4); i < k; i++ {
-			q := "maxmem=" + []string{"2097152", "4194304", "67108864", "1", "1048576"}[r.Intn(5)]
+			// powers of two and values in between (the last growth step has to be
+			// clamped to the limit, not skipped)
+			q := "maxmem=" + []string{"2097152", "4194304", "67108864", "1", "1048576", "2000000", "1900000", "3000000", "2500000", "6000000"}[r.Intn(10)]
 			if r.Chance(0.5) {
 				q += "&augment=0"
 			}
